@@ -395,6 +395,8 @@ Proof.
     destruct (deliver_conn a c (pend s) (threads s)) as [pe ths] eqn:D. injection H as <-.
     apply InvB_wk. eapply InvB_same_owners; [..|exact HI]; try reflexivity. ssimpl.
     eapply deliver_conn_same_owners; eauto.
+  - injection H as <-. apply InvB_new_thread; [exact HI|]. intros w [E|E]; cbn [t_pc] in E;
+      destruct (negb force && _); try destruct (best_conn (conns s)); discriminate.
 Qed.
 
 Lemma cleanup_InvB : forall s, InvB s -> InvB (cleanup s).
